@@ -3,9 +3,14 @@
 # scratch worktree of /repo HEAD; /repo itself is never touched) and writes
 # seeded/MATRIX.md plus the detected_by / not_detected_by fields of each meta.json.
 #   tools/seedmatrix.sh [-j N] [check ids...]      (default: all 20 checks, 3 seeds at a time)
+#   tools/seedmatrix.sh [-j N] --own               (each change against the check of its own property, plus
+#                                                    C04 C14 C15 when it touches ddsketch/store)
 set -u
 J=3
 if [ "${1:-}" = "-j" ]; then J="$2"; shift 2; fi
+OWN=""
+if [ "${1:-}" = "--own" ]; then OWN=1; shift; fi
+export OWN
 CHECKS=("$@")
 if [ ${#CHECKS[@]} -eq 0 ]; then CHECKS=(C01 C02 C03 C04 C05 C06 C07 C08 C09 C10 C11 C12 C13 C14 C15 C16 C17 C18 C19 C20); fi
 cd /verif
@@ -13,6 +18,14 @@ OUT=/tmp/seedmatrix.$$
 mkdir -p "$OUT"
 run_one() {
   local d="$1"; local name; name=$(basename "$d")
+  if [ -n "$OWN" ]; then
+    own=$(python3 -c "import json,sys; print(json.load(open('$d/meta.json'))['property'])")
+    extra=""
+    if grep -q '^+++ b/ddsketch/store/' "$d/patch.diff"; then extra="C04 C14 C15"; fi
+    list=$(echo "$own $extra" | tr ' ' '\n' | awk 'NF && !seen[$0]++' | tr '\n' ' ')
+    VERIF_WORKERS=5 tools/seedtest.sh "$d/patch.diff" $list > "$OUT/$name.txt" 2>&1
+    return
+  fi
   VERIF_WORKERS=5 tools/seedtest.sh "$d/patch.diff" "${CHECKS[@]}" > "$OUT/$name.txt" 2>&1
 }
 export -f run_one; export OUT; export CHECKS_STR="${CHECKS[*]}"
